@@ -58,6 +58,17 @@ def Tok.setEmph (t : Tok) (ty tag : String) (n : Int) (mk : String) : Tok :=
   match t with
   | .mk _ _ _ a m l c _ _ i md b h => .mk ty tag n a m l c "" mk i md b h
 
+/-- the `isStrong` test: the previous delimiter is the adjacent marker of the same run and closes on the adjacent marker after this
+    one's closer -/
+def isStrongAt (ds : List Delim) (i : Int) (sd ed : Delim) : Bool :=
+  decide (i > 0) &&
+    (match ds[(i - 1).toNat]? with
+     | some p => p.end_ == sd.end_ + 1 && p.marker == sd.marker && p.token == sd.token - 1 &&
+        (match ds[(sd.end_ + 1).toNat]? with
+         | some a => a.token == ed.token + 1
+         | none => false)
+     | none => false)
+
 /-- the `while i >= 0` loop of `_postProcess` -/
 def emphPostGo (ds : List Delim) : Nat → Int → List Tok → List Tok
   | 0, _, ts => ts
@@ -72,22 +83,14 @@ def emphPostGo (ds : List Delim) : Nat → Int → List Tok → List Tok
         match ds[sd.end_.toNat]? with
         | none => ts
         | some ed =>
-          let prev := ds[(i - 1).toNat]?
-          let after := ds[(sd.end_ + 1).toNat]?
-          let isStrong := decide (i > 0) &&
-            (match prev with
-             | some p => p.end_ == sd.end_ + 1 && p.marker == sd.marker && p.token == sd.token - 1 &&
-                (match after with
-                 | some a => a.token == ed.token + 1
-                 | none => false)
-             | none => false)
+          let isStrong := isStrongAt ds i sd ed
           let ch := Char.ofNat sd.marker
           let mk := if isStrong then String.ofList [ch, ch] else String.singleton ch
           let ts1 := ts.modify sd.token.toNat (fun t => t.setEmph (if isStrong then "strong_open" else "em_open") (if isStrong then "strong" else "em") 1 mk)
           let ts2 := ts1.modify ed.token.toNat (fun t => t.setEmph (if isStrong then "strong_close" else "em_close") (if isStrong then "strong" else "em") (-1) mk)
           if isStrong then
-            let ts3 := ts2.modify ((prev.map Delim.token).getD 0).toNat (fun t => t.setContent "")
-            let ts4 := ts3.modify ((after.map Delim.token).getD 0).toNat (fun t => t.setContent "")
+            let ts3 := ts2.modify ((ds[(i - 1).toNat]?.map Delim.token).getD 0).toNat (fun t => t.setContent "")
+            let ts4 := ts3.modify ((ds[(sd.end_ + 1).toNat]?.map Delim.token).getD 0).toNat (fun t => t.setContent "")
             emphPostGo ds fuel (i - 2) ts4
           else emphPostGo ds fuel (i - 1) ts2
 
